@@ -25,12 +25,21 @@
 (*             Id(c)            a ClientID written in lower case           *)
 (*             IdM(c)           the same ClientID written in another       *)
 (*                              letter case ("Client-1")                   *)
+(*             IpM(b), CidrM(p) an IPv4 address / prefix written in        *)
+(*                              IPv4-mapped IPv6 form ("::ffff:1.2.3.4",   *)
+(*                              "::ffff:1.2.3.0/120")                      *)
+(*           The field sp records how an entry is written; like the form   *)
+(*           of a request address, NO operator reads it: ClientIDs are     *)
+(*           compared up to ASCII letter case on both sides, and address   *)
+(*           identity is up to the 4-in-6 mapping on both sides (a prefix  *)
+(*           at or beyond ::ffff:0:0/96 denotes the IPv4 prefix).          *)
 (*           All are records of ONE shape so that TLC may compare them and *)
 (*           ToJson prints them uniformly.                                 *)
 (*  name     sequence of labels, canonical spelling, e.g. <<"b","a","com">>*)
 (*  pattern  [k, n, qt]: k \in {"exact","domain","wild","all"} for          *)
 (*           n , ||n^ , *.n , ||*^ ; qt = "" or a query type to which the  *)
-(*           rule is restricted ($dnstype=qt)                              *)
+(*           rule is restricted ($dnstype=qt); k = "re" for one of the     *)
+(*           regular-expression rules of ReMatches, n = <<shape>>          *)
 (*  request  [addr, form, id, idcase, name, spell, qtype, proto]           *)
 (*           id = "" when the client sent no ClientID; idcase / spell /    *)
 (*           form are carried only so that the statement's quantifiers are *)
@@ -45,6 +54,12 @@ Ip(f, b)   == [k |-> "ip",   fam |-> f,  bits |-> b,    id |-> NoId, sp |-> "low
 Cidr(f, p) == [k |-> "cidr", fam |-> f,  bits |-> p,    id |-> NoId, sp |-> "lower"]
 Id(c)      == [k |-> "id",   fam |-> "", bits |-> <<>>, id |-> c,    sp |-> "lower"]
 IdM(c)     == [k |-> "id",   fam |-> "", bits |-> <<>>, id |-> c,    sp |-> "mixed"]
+IpM(b)     == [k |-> "ip",   fam |-> "v4", bits |-> b,  id |-> NoId, sp |-> "mapped"]
+CidrM(p)   == [k |-> "cidr", fam |-> "v4", bits |-> p,  id |-> NoId, sp |-> "mapped"]
+
+\* The ClientID of a request whose ClientID label is not a valid label (C16:
+\* such a request fails).  It names no client.
+BadId == "~bad"
 
 Pat(k, n)      == [k |-> k, n |-> n, qt |-> ""]
 PatT(k, n, qt) == [k |-> k, n |-> n, qt |-> qt]
@@ -61,20 +76,15 @@ EntryHasAddr(e, a) ==
     /\ \/ e.k = "ip"   /\ e.bits = a.bits
        \/ e.k = "cidr" /\ IsPrefix(e.bits, a.bits)
 
-\* Entry e names the ClientID c.  A request without a ClientID is named by no
-\* entry ("absent" in the statement's quantifier).  The statement quantifies
-\* over the spelling of the ClientID a *request* carries (idcase: it never
-\* matters).  It does not say whether an *entry* written in another letter
-\* case names the ClientID: for such an entry both answers are admissible.
-EntryHasId(e, c)   == e.k = "id" /\ c # NoId /\ e.id = c /\ e.sp = "lower"
-EntryMayHaveId(e, c) == e.k = "id" /\ c # NoId /\ e.id = c /\ e.sp # "lower"
+\* Entry e names the ClientID c.  A request without a (valid) ClientID is
+\* named by no entry ("absent" in the statement's quantifier).  The statement
+\* quantifies over ClientIDs "present, absent, differing case": the letter
+\* case differs on either side -- in the request (idcase) or in the entry
+\* (e.sp) -- and never matters.
+EntryHasId(e, c) == e.k = "id" /\ c \notin {NoId, BadId} /\ e.id = c
 
-\* "its address or its ClientID is <on the list>": the set of admissible
-\* answers.
-Listed(list, a, c) ==
-    IF \E e \in list : EntryHasAddr(e, a) \/ EntryHasId(e, c) THEN {TRUE}
-    ELSE IF \E e \in list : EntryMayHaveId(e, c) THEN {TRUE, FALSE}
-    ELSE {FALSE}
+\* "its address or its ClientID is <on the list>".
+Listed(list, a, c) == \E e \in list : EntryHasAddr(e, a) \/ EntryHasId(e, c)
 
 \* ------------------------------------------------------------ client decision
 \* "If the allowed list is non-empty a client is admitted exactly when its
@@ -84,14 +94,11 @@ Listed(list, a, c) ==
 \* nothing of an earlier configuration enters the decision.
 AllowListMode(cfg) == cfg.allowed # {}
 
-\* Set of admissible answers to "is the client excluded".
-ExcludedSet(cfg, a, c) ==
+Excluded(cfg, a, c) ==
     IF AllowListMode(cfg)
-    THEN {~x : x \in Listed(cfg.allowed, a, c)}
+    THEN ~Listed(cfg.allowed, a, c)
     ELSE Listed(cfg.disallowed, a, c)
-
-Excluded(cfg, a, c) == ExcludedSet(cfg, a, c) = {TRUE}
-Admitted(cfg, a, c) == ExcludedSet(cfg, a, c) = {FALSE}
+Admitted(cfg, a, c) == ~Excluded(cfg, a, c)
 
 \* --------------------------------------------------------------------- names
 IsSuffix(s, n) == /\ Len(s) <= Len(n)
@@ -101,6 +108,24 @@ IsSuffix(s, n) == /\ Len(s) <= Len(n)
 \* label and ends before the end of n (i.e. s followed by more labels).
 OccursInside(s, n) ==
     \E off \in 1..(Len(n) - Len(s) - 1) : \A i \in 1..Len(s) : s[i] = n[off + i]
+
+\* Regular-expression rules (/re/ in the rule engine's syntax: matched against
+\* the whole lower-cased name, case-insensitively).  Regular expressions are
+\* not re-implemented here; three fixed expressions are transcribed to the
+\* label vocabulary, the classes naming the labels of both vocabularies
+\* (exhaustive universe / traces) that have the shape in question:
+\*   "nondigit"  /^ads\D+\.com$/              a label "ads" + one or more
+\*                                            non-digits, directly under com
+\*   "capital"   /^Beta\.COM$/                 capital literals: still beta.com
+\*   "named"     /^(?P<sub>ads|beta)\.org$/    named group: ads.org, beta.org
+AdsLabel     == {"a", "ads"}
+BetaLabel    == {"b", "beta"}
+AdsNonDigits == {"ar", "adsrv"}      \* "adsrv";  "a1" / "ads1" ends in a digit
+ReMatches(shape, n) ==
+    /\ Len(n) = 2
+    /\ CASE shape = "nondigit" -> n[2] = "com" /\ n[1] \in AdsNonDigits
+         [] shape = "capital"  -> n[2] = "com" /\ n[1] \in BetaLabel
+         [] shape = "named"    -> n[2] = "org" /\ n[1] \in AdsLabel \cup BetaLabel
 
 \* The name n, asked with query type q, is on the list because of pattern p.
 \*   exact  n0   : that very name
@@ -115,6 +140,7 @@ NameOnListBy(p, n) ==
       [] p.k = "domain" -> IsSuffix(p.n, n)
       [] p.k = "wild"   -> IsSuffix(p.n, n) /\ Len(n) > Len(p.n)
       [] p.k = "all"    -> TRUE
+      [] p.k = "re"     -> ReMatches(p.n[1], n)
 OnListBy(p, n, q) == TypeOk(p, q) /\ NameOnListBy(p, n)
 
 \* The blocked-hosts list is written in the rule engine's adblock syntax, in
@@ -151,10 +177,17 @@ Denial(proto) == IF proto \in SilentProto THEN "drop" ELSE "refused"
 \*   "drop"    no reply at all          "refused"  a reply with rcode REFUSED
 \*   "served"  processed normally (resolved, filtered, logged, counted)
 Denied(cfg, r) ==
-    {x \/ h : x \in ExcludedSet(cfg, r.addr, r.id), h \in HostBlocked(cfg.hosts, r.name, r.qtype)}
+    {Excluded(cfg, r.addr, r.id) \/ h : h \in HostBlocked(cfg.hosts, r.name, r.qtype)}
 
+\* A request whose ClientID label is invalid is the subject of two statements:
+\* C16 says it fails (a SERVFAIL reply, "servfail"), this one says that an
+\* excluded client, or a request for a blocked name, gets nothing but the
+\* denial.  Where both apply they contradict each other, so both outcomes are
+\* admitted; where only C16 applies, only the failure.  It is never served.
 Outcomes(cfg, r) ==
-    {IF d THEN Denial(r.proto) ELSE "served" : d \in Denied(cfg, r)}
+    IF r.id = BadId
+    THEN {"servfail"} \cup {Denial(r.proto) : d \in {x \in Denied(cfg, r) : x}}
+    ELSE {IF d THEN Denial(r.proto) ELSE "served" : d \in Denied(cfg, r)}
 
 \* What a request does to the three observers named by the statement
 \* ("never resolved, filtered, logged or counted"): number of upstream
